@@ -18,37 +18,35 @@ def strip_editable_finder():
     sys.meta_path[:] = [f for f in sys.meta_path if "editable" not in repr(f).lower()]
 
 
-def make_tree(dest=None, with_table=False) -> str:
-    """Copy the working tree's python sources.  The parser table cache is not
-    copied (a fresh checkout has none); see warm()."""
-    dest = dest or os.path.join(core.scratch_root(), "tree")
+_SKIP_TOP = {".git", "tests", "__pycache__", ".pytest_cache", ".hypothesis", "build", "dist", ".idea", ".code"}
+
+
+def _copy_tree(src, dest, with_table):
+    """Everything a checkout of the repository holds except its test-suite and VCS / cache
+    directories: the drivers may import further top-level modules, the package may grow."""
     if os.path.exists(dest):
         shutil.rmtree(dest)
     os.makedirs(dest)
-    ignore = shutil.ignore_patterns("__pycache__", "parser.out") if with_table else shutil.ignore_patterns(
-        "__pycache__", "parsetab.py", "parser.out"
-    )
-    shutil.copytree(os.path.join(core.REPO, "nsl"), os.path.join(dest, "nsl"), ignore=ignore)
-    for f in ("nslc.py", "nslr.py"):
-        p = os.path.join(core.REPO, f)
-        if os.path.exists(p):
-            shutil.copy2(p, os.path.join(dest, f))
+    drop = ["__pycache__", "parser.out", "*.pyc"] + ([] if with_table else ["parsetab.py"])
+    for name in sorted(os.listdir(src)):
+        if name in _SKIP_TOP or name.endswith(".egg-info"):
+            continue
+        sp, dp = os.path.join(src, name), os.path.join(dest, name)
+        if os.path.isdir(sp):
+            shutil.copytree(sp, dp, ignore=shutil.ignore_patterns(*drop), symlinks=True)
+        elif os.path.isfile(sp) and not name.endswith((".nslir", ".wasm")):
+            shutil.copy2(sp, dp)
     return dest
+
+
+def make_tree(dest=None, with_table=False) -> str:
+    """Copy the working tree.  The parser table cache is not copied (a fresh checkout has none);
+    see warm()."""
+    return _copy_tree(core.REPO, dest or os.path.join(core.scratch_root(), "tree"), with_table)
 
 
 def clone_tree(src, dest, with_table=True):
-    if os.path.exists(dest):
-        shutil.rmtree(dest)
-    os.makedirs(dest)
-    ignore = shutil.ignore_patterns("__pycache__", "parser.out") if with_table else shutil.ignore_patterns(
-        "__pycache__", "parsetab.py", "parser.out"
-    )
-    shutil.copytree(os.path.join(src, "nsl"), os.path.join(dest, "nsl"), ignore=ignore)
-    for f in ("nslc.py", "nslr.py"):
-        p = os.path.join(src, f)
-        if os.path.exists(p):
-            shutil.copy2(p, os.path.join(dest, f))
-    return dest
+    return _copy_tree(src, dest, with_table)
 
 
 def activate(tree):
@@ -75,9 +73,9 @@ def warm():
     the private tree exactly once, before any worker is forked (sixteen first
     Compiler() calls at once would race on PLY's non-atomic table write)."""
     with core.Quiet():
-        from nsl import parser as nslparser
+        import nsl.Compiler
 
-        nslparser.NslParser()
+        nsl.Compiler.Compiler()  # public entry point only: builds the parser (and its table cache)
     import nsl.Compiler  # noqa
     import nsl.LinearIR  # noqa
     import nsl.VM  # noqa
